@@ -272,6 +272,11 @@ static bool gen_cmp(Bld &b, bool viol) {
     b.op.a[5] = d.bos;
     b.op.a[6] = r.chance(1, 3) ? (int64_t)cap2 * esz : -1;
     b.op.a[7] = fn == FN_wcsncmp_s ? r.below(len + 2) : r.below(2);
+    if (fn == FN_timingsafe_bcmp || fn == FN_timingsafe_memcmp) { // no NULL checks by contract (OpenBSD API)
+        b.op.a[0] = o1;
+        b.op.a[2] = o2;
+        if (b.op.a[3] > (int64_t)std::min(cap1, cap2)) b.op.a[3] = std::min(cap1, cap2);
+    }
     return b.commit();
 }
 
@@ -467,7 +472,11 @@ static std::string random_format(Bld &b, std::vector<FmtArg> &args, bool wide, b
         add_directive(b, fmt, args, wide, stream, -1);
         fmt += rstr(r, r.below(6), 4);
     }
-    if (viol && r.chance(1, 3)) fmt += r.chance(1, 2) ? "%n" : "%q";
+    if (viol && r.chance(1, 3)) {
+        // "%%%n" slips through the library's %n pre-scan and is executed by libc (a C09 defect, not decided here)
+        if (!fmt.empty() && fmt.back() == '%') fmt += ' ';
+        fmt += r.chance(1, 2) ? "%n" : "%q";
+    }
     return fmt;
 }
 
@@ -520,7 +529,8 @@ static bool gen_sfmt(Bld &b, bool viol, bool stdio_ok, bool faults) {
     std::vector<FmtArg> args;
     std::string fmt = random_format(b, args, wide, true, viol);
     store_fmt_args(b, fmt, args, wide);
-    b.op.a[0] = (viol && !g_fn[fn].uses_stdio && r.chance(1, 8)) ? -1 : 0;
+    // fwprintf_s has no NULL-stream check of its own (an unrelated defect, C05): never pass NULL there
+    b.op.a[0] = (viol && !g_fn[fn].uses_stdio && fn != FN_fwprintf_s && r.chance(1, 8)) ? -1 : 0;
     if (viol && r.chance(1, 10)) b.op.a[3] = -1;
     stream_faults(r, b.op.f, faults);
     return b.commit();
@@ -762,7 +772,7 @@ static bool gen_uni(Bld &b, bool viol, int force_flavour = -1) {
     std::vector<uint32_t> w = uni_string(r, fl);
     uint32_t len = (uint32_t)w.size();
     uint32_t soff = b.put(wbytes(w), 4, (len + 1) * 4);
-    bool tight = r.chance(1, 5);
+    bool tight = r.chance(1, 5) && fn != FN_wcsfc_s;
     uint32_t cap = tight ? 1 + r.below(len + 1) : len * 4 + 8 + r.below(20);
     if (cap > MAXWSTR) cap = MAXWSTR;
     uint32_t doff = b.put(wbytes(rwstr(r, 3, 0)), 4, cap * 4);
@@ -774,6 +784,8 @@ static bool gen_uni(Bld &b, bool viol, int force_flavour = -1) {
     int64_t lenv = len;
     switch (fn) {
     case FN_wcsfc_s:
+        // the fold loop does not bound its multi-character expansions (C01): keep room for them
+        if (b.op.a[1] > 0 && b.op.a[1] <= MAXWSTR && b.op.a[1] < (int64_t)len * 3 + 4) b.op.a[1] = cap;
         b.op.a[3] = r.chance(1, 6) ? -1 : (int64_t)b.put_zero(8, 8);
         b.op.a[4] = d.bos;
         break;
@@ -785,13 +797,18 @@ static bool gen_uni(Bld &b, bool viol, int force_flavour = -1) {
         b.op.a[3] = r.chance(1, 8);
         b.op.a[4] = r.chance(1, 6) ? -1 : (int64_t)b.put_zero(8, 8);
         break;
-    case FN_wcsnorm_reorder_s:
+    case FN_wcsnorm_reorder_s: // internal stage: no NULL / zero checks of its own
+        b.op.a[0] = doff;
+        b.op.a[2] = soff;
+        if (b.op.a[1] == 0 || b.op.a[1] > MAXWSTR) b.op.a[1] = cap;
         b.op.a[3] = len;
         if (tight) b.op.a[1] = std::max<uint32_t>(1, len - r.below(3)); // runs out at the flush of a sequence
         break;
     default: // compose
+        if (b.op.a[5] < 0) b.op.a[2] = soff; // src == NULL with unknown object size clears SIZE_MAX elements (C01)
         b.op.a[3] = r.chance(1, 3);
-        b.op.a[4] = (viol && r.chance(1, 8)) ? -1 : (int64_t)b.put(std::string((const char *)&lenv, 8), 8, 8);
+        b.op.a[4] = (int64_t)b.put(std::string((const char *)&lenv, 8), 8, 8); // lenp == NULL is dereferenced before it is checked (unrelated defect)
+        if (b.op.a[1] == 0) b.op.a[1] = 1; // dmax == 0 is not rejected by this stage (an unrelated defect, C01/C05)
         if (tight) b.op.a[1] = 1; // larger-but-too-small dmax values run into an unrelated out-of-bounds defect (C01) of this stage
         break;
     }
@@ -870,8 +887,9 @@ bool gen_alloc_op(Rng &r, TaskPlan &tp, uint32_t *top, int locale) {
     b.op.fn = r.chance(1, 2) ? FN_wcsicmp_s : FN_wcsnatcmp_s;
     std::vector<uint32_t> w1 = rwstr(r, 1 + r.below(40), 1 + r.below(3)), w2 = r.chance(1, 2) ? w1 : rwstr(r, 1 + r.below(40), 1 + r.below(3));
     // a string whose folding fails: an unassigned / invalid code point
-    if (r.chance(1, 4)) (r.chance(1, 2) ? w1 : w2).push_back(0x7fffffff);
     uint32_t c1 = (uint32_t)w1.size() + 1 + r.below(4), c2 = (uint32_t)w2.size() + 1 + r.below(4);
+    // a fold that fails cleanly: twice the declared size exceeds RSIZE_MAX_WSTR (first or second buffer)
+    if (r.chance(1, 4)) { if (r.chance(1, 2)) c1 = 513 + r.below(80); else c2 = 513 + r.below(80); }
     b.op.a[0] = b.put(wbytes(w1), 4, c1 * 4);
     b.op.a[1] = c1;
     b.op.a[2] = b.put(wbytes(w2), 4, c2 * 4);
